@@ -45,7 +45,7 @@ func (r *Rng) Bytes(n int) []byte {
 	return b
 }
 func (r *Rng) Pick(xs ...int) int { return xs[r.Intn(len(xs))] }
-func (r *Rng) Fork() *Rng        { return NewRng(r.U64()) }
+func (r *Rng) Fork() *Rng         { return NewRng(r.U64()) }
 
 // ---------- token streams ----------
 // A Toks value carries two projections of the implementation's observable:
@@ -185,10 +185,10 @@ func T(req Req, t *Toks, tag string) Case {
 
 // ---------- a differential case ----------
 type Case struct {
-	Req  Req    // request without the m./s. prefix
-	Impl string // token stream observed on the implementation (full projection)
+	Req      Req    // request without the m./s. prefix
+	Impl     string // token stream observed on the implementation (full projection)
 	ImplSpec string // property-level projection; empty = same as Impl
-	Tag  string // coverage tag (which branch / kind of case)
+	Tag      string // coverage tag (which branch / kind of case)
 	// PropOnly: tokens of Impl the property itself constrains are compared with
 	// the spec oracle ("s."), the full stream with the model ("m.").
 	NoSpec bool // no spec oracle for this op
@@ -206,22 +206,22 @@ type Mismatch struct {
 }
 
 type Result struct {
-	Property           string         `json:"property"`
-	Tier               string         `json:"tier"`
-	Seed               int64          `json:"seed"`
-	Evaluations        int            `json:"evaluations"`
-	DistinctNontrivial int            `json:"distinct_nontrivial"`
-	Rule               string         `json:"rule"`
-	Samples            []interface{}  `json:"samples"`
-	Tags               map[string]int `json:"tags"`
-	Sizes              map[string]int `json:"sizes,omitempty"`
-	MissingTags        []string       `json:"missing_tags,omitempty"`
-	Mismatches         []Mismatch     `json:"mismatches"`
-	NMismatch          int            `json:"n_mismatch"`
-	Known              []string       `json:"known_findings,omitempty"`
-	Exhaustive         bool           `json:"exhaustive"`
-	Notes              []string       `json:"notes,omitempty"`
-	WallS              float64        `json:"wall_s"`
+	Property           string                 `json:"property"`
+	Tier               string                 `json:"tier"`
+	Seed               int64                  `json:"seed"`
+	Evaluations        int                    `json:"evaluations"`
+	DistinctNontrivial int                    `json:"distinct_nontrivial"`
+	Rule               string                 `json:"rule"`
+	Samples            []interface{}          `json:"samples"`
+	Tags               map[string]int         `json:"tags"`
+	Sizes              map[string]int         `json:"sizes,omitempty"`
+	MissingTags        []string               `json:"missing_tags,omitempty"`
+	Mismatches         []Mismatch             `json:"mismatches"`
+	NMismatch          int                    `json:"n_mismatch"`
+	Known              []string               `json:"known_findings,omitempty"`
+	Exhaustive         bool                   `json:"exhaustive"`
+	Notes              []string               `json:"notes,omitempty"`
+	WallS              float64                `json:"wall_s"`
 	Extra              map[string]interface{} `json:"extra,omitempty"`
 	// a sample of (request, answer of the extracted driver) pairs, re-evaluated inside Coq by vm_compute in the thorough tier
 	Kernel []KernelCase `json:"kernel_sample,omitempty"`
